@@ -227,6 +227,27 @@ impl framehop::ModuleSectionInfo<Bytes> for PeSectionInfo {
     }
 }
 
+/// Lengthens the chain of unwind infos of some functions with empty chained infos (no unwind
+/// codes: the meaning of the function's unwind data is unchanged) - chains of up to 32 infos are
+/// legal, longer ones must be refused.
+pub fn pad_chains(p: &mut Prng, specs: &mut [PeFuncSpec], beyond_limit: bool) {
+    for s in specs.iter_mut() {
+        if p.chance(1, 3) {
+            let k = match p.below(8) {
+                0..=3 => 1 + p.below(6) as usize,
+                4 => 30 - s.infos.len().min(30),
+                5 => 32 - s.infos.len().min(32),
+                6 if beyond_limit => 33 - s.infos.len().min(33),
+                _ => 8 + p.below(20) as usize,
+            };
+            for _ in 0..k {
+                let at = 1 + p.below(s.infos.len() as u64) as usize;
+                s.infos.insert(at, PeInfoSpec { codes: vec![] });
+            }
+        }
+    }
+}
+
 pub fn build_pe_module(name: &str, m: &ModSpec, funcs: &[PeFuncSpec]) -> framehop::Module<Bytes> {
     let text_rva = (m.start - m.base_avma) as u32;
     let image = write_pe(funcs, text_rva);
@@ -665,8 +686,9 @@ pub fn run(tier: &str, seed: u64) -> Report {
         {
             let mut codes = Vec::new();
             let mut o = 40u8;
-            for _ in 0..(1 + p.below(4)) {
-                let op = match p.below(7) {
+            let many_pushes = p.chance(1, 4);
+            for _ in 0..(if many_pushes { 7 + p.below(6) } else { 1 + p.below(4) }) {
+                let op = match if many_pushes { 5 } else { p.below(7) } {
                     0 => PeOpSpec::SaveXmm(6, 16 * p.below(8) as u32),
                     1 => PeOpSpec::MachFrame(p.chance(1, 2)),
                     2 => PeOpSpec::AllocLargeRaw(*p.pick(&[12u32, 0x8_0000, 0x7_fff8, 0x8_0004, 1])),
@@ -676,11 +698,20 @@ pub fn run(tier: &str, seed: u64) -> Report {
                     _ => PeOpSpec::SetFp,
                 };
                 codes.push((o, op));
-                o = o.saturating_sub(4 + p.below(6) as u8);
+                o = o.saturating_sub(if many_pushes { 2 } else { 4 + p.below(6) as u8 });
             }
             let fr = if p.chance(1, 2) { Some(*p.pick(&[5u8, 3, 13])) } else { None };
             let mut bytes = vec![0x90u8; 48];
-            bytes.extend_from_slice(&[0x48, 0x83, 0xc4, 0x0c, 0x5b, 0xc3]); // add rsp,12; pop rbx; ret
+            if p.chance(1, 4) {
+                // an epilog with more pops than a rule can hold: add rsp,16; pop x 7..12; ret
+                bytes.extend_from_slice(&[0x48, 0x83, 0xc4, 0x10]);
+                for _ in 0..(7 + p.below(6)) {
+                    bytes.extend_from_slice(*p.pick(&[&[0x5bu8][..], &[0x5e], &[0x5f], &[0x41, 0x5c], &[0x41, 0x5d], &[0x41, 0x5e], &[0x41, 0x5f], &[0x5d]]));
+                }
+                bytes.push(0xc3);
+            } else {
+                bytes.extend_from_slice(&[0x48, 0x83, 0xc4, 0x0c, 0x5b, 0xc3]); // add rsp,12; pop rbx; ret
+            }
             let spec = PeFuncSpec { begin, end: begin + bytes.len() as u32, frame_reg: fr, frame_off: 16 * p.below(4) as u8, infos: vec![PeInfoSpec { codes }], bytes };
             begin = spec.end;
             funcs.push(PeFunc { split_at: None, spec, insns: vec![], calls: vec![], leaf_without_entry: false });
@@ -707,6 +738,7 @@ pub fn run(tier: &str, seed: u64) -> Report {
                 }
             }
         }
+        pad_chains(&mut p, &mut specs, false);
         let mspec = ModSpec {
             start: image_base + 0x1000,
             end: image_base + text_end as u64,
